@@ -36,45 +36,54 @@ func (c05) Exhaustive(c *run.Ctx) bool { return true }
 type conflictEdit struct {
 	Kind string
 	A, B string // SDL appended to service a / service b
+	C    string // SDL appended to a third service (needs k >= 3)
+	// Benign: the edited set is still mergeable by the statement's rules (every pair of declarations identical
+	// or disjoint): it must be accepted in every order with the same facts
+	Benign bool
 }
 
 // conflictEdits lists one operator per conflict kind of the statement.  Fresh names only.
 var conflictEdits = []conflictEdit{
-	{"dup-root-field-query", "extend type Query { dupRoot: String }", "extend type Query { dupRoot: String }"},
-	{"dup-root-field-mutation", "type Mutation { dupMut: String }", "type Mutation { dupMut: String }"},
-	{"kind-object-vs-enum", "type Clash { a: Int }", "enum Clash { A B }"},
-	{"kind-object-vs-input", "type Clash { a: Int }", "input Clash { a: Int }"},
-	{"kind-object-vs-interface", "type Clash { a: Int }", "interface Clash { a: Int }"},
-	{"kind-object-vs-scalar", "type Clash { a: Int }", "scalar Clash"},
-	{"kind-object-vs-union", "type Clash { a: Int }\ntype ClashM { a: Int }", "type ClashM { a: Int }\nunion Clash = ClashM"},
-	{"kind-enum-vs-scalar", "enum Clash { A }", "scalar Clash"},
-	{"node-ness-mismatch", "type Half implements Node { id: ID! }", "type Half { id: ID! x: Int }"},
-	{"node-type-field-twice", "type Twice implements Node { id: ID! shared: Int }", "type Twice implements Node { id: ID! shared: Int }"},
-	{"value-type-partial-overlap", "type Part { a: Int b: Int }", "type Part { a: Int c: Int }"},
-	{"value-type-partial-overlap-with-id", "type PartId { id: ID! a: Int }", "type PartId { a: Int c: Int }"},
-	{"value-type-partial-overlap-with-id-rev", "type PartId { a: Int c: Int }", "type PartId { id: ID! a: Int }"},
-	{"value-type-subset", "type Sub { a: Int b: Int }", "type Sub { a: Int }"},
-	{"value-type-extra-id-only", "type Xid { id: ID! a: Int }", "type Xid { a: Int }"},
-	{"input-subset", "input SubIn { a: Int b: Int }", "input SubIn { a: Int }"},
-	{"input-partial-overlap", "input PartIn { a: Int b: Int }", "input PartIn { a: Int c: Int }"},
-	{"shared-id-field-different-type", "type ShId { id: ID! a: Int }", "type ShId { id: String a: Int }"},
-	{"shared-id-field-different-type-only-id", "type ShIdOnly { id: ID! }", "type ShIdOnly { id: Int }"},
-	{"shared-id-field-different-nullability", "type ShIdN { id: ID! a: Int }", "type ShIdN { id: ID a: Int }"},
-	{"shared-id-field-different-arg-set", "type ShIdA { id: ID! a: Int }", "type ShIdA { id(x: Int): ID! a: Int }"},
-	{"input-shared-id-field-different-type", "input ShIdIn { id: ID! a: Int }", "input ShIdIn { id: Int a: Int }"},
-	{"shared-field-different-list-default", "type ShLd { a(x: [String!] = [\"name\"]): Int }", "type ShLd { a(x: [String!] = [\"createdAt\"]): Int }"},
-	{"shared-input-field-different-list-default", "input ShLdIn { s: [String!] = [\"a\"] }", "input ShLdIn { s: [String!] = [\"b\"] }"},
-	{"shared-input-field-different-object-default", "input PtD { x: Int }\ninput ShOdIn { p: PtD = {x: 1} }", "input PtD { x: Int }\ninput ShOdIn { p: PtD = {x: 2} }"},
-	{"shared-field-different-object-default", "input PtE { x: Int }\ntype ShOd { a(p: PtE = {x: 1}): Int }", "input PtE { x: Int }\ntype ShOd { a(p: PtE = {x: 2}): Int }"},
-	{"shared-field-different-type", "type Sh { a: Int }", "type Sh { a: String }"},
-	{"shared-field-different-nullability", "type Sh { a: Int }", "type Sh { a: Int! }"},
-	{"shared-field-different-list", "type Sh { a: [Int] }", "type Sh { a: Int }"},
-	{"shared-field-different-arg-type", "type Sh { a(x: Int): Int }", "type Sh { a(x: String): Int }"},
-	{"shared-field-different-arg-set", "type Sh { a: Int }", "type Sh { a(x: Int): Int }"},
-	{"shared-field-different-arg-default", "type Sh { a(x: Int = 1): Int }", "type Sh { a(x: Int = 2): Int }"},
-	{"shared-input-field-different-type", "input ShIn { a: Int }", "input ShIn { a: String }"},
-	{"union-different-members", "type Ua { a: Int }\ntype Ub { a: Int }\nunion Un = Ua | Ub", "type Ua { a: Int }\ntype Ub { a: Int }\nunion Un = Ua"},
-	{"interface-field-different-type", "interface If { a: Int }\ntype IfM implements If { a: Int }", "interface If { a: String }\ntype IfM2 implements If { a: String }"},
+	{"dup-root-field-query", "extend type Query { dupRoot: String }", "extend type Query { dupRoot: String }", "", false},
+	{"dup-root-field-mutation", "type Mutation { dupMut: String }", "type Mutation { dupMut: String }", "", false},
+	{"kind-object-vs-enum", "type Clash { a: Int }", "enum Clash { A B }", "", false},
+	{"kind-object-vs-input", "type Clash { a: Int }", "input Clash { a: Int }", "", false},
+	{"kind-object-vs-interface", "type Clash { a: Int }", "interface Clash { a: Int }", "", false},
+	{"kind-object-vs-scalar", "type Clash { a: Int }", "scalar Clash", "", false},
+	{"kind-object-vs-union", "type Clash { a: Int }\ntype ClashM { a: Int }", "type ClashM { a: Int }\nunion Clash = ClashM", "", false},
+	{"kind-enum-vs-scalar", "enum Clash { A }", "scalar Clash", "", false},
+	{"node-ness-mismatch", "type Half implements Node { id: ID! }", "type Half { id: ID! x: Int }", "", false},
+	{"node-type-field-twice", "type Twice implements Node { id: ID! shared: Int }", "type Twice implements Node { id: ID! shared: Int }", "", false},
+	{"value-type-partial-overlap", "type Part { a: Int b: Int }", "type Part { a: Int c: Int }", "", false},
+	{"value-type-partial-overlap-with-id", "type PartId { id: ID! a: Int }", "type PartId { a: Int c: Int }", "", false},
+	{"value-type-partial-overlap-with-id-rev", "type PartId { a: Int c: Int }", "type PartId { id: ID! a: Int }", "", false},
+	{"value-type-subset", "type Sub { a: Int b: Int }", "type Sub { a: Int }", "", false},
+	{"value-type-extra-id-only", "type Xid { id: ID! a: Int }", "type Xid { a: Int }", "", false},
+	{"input-subset", "input SubIn { a: Int b: Int }", "input SubIn { a: Int }", "", false},
+	{"input-partial-overlap", "input PartIn { a: Int b: Int }", "input PartIn { a: Int c: Int }", "", false},
+	{"shared-id-field-different-type", "type ShId { id: ID! a: Int }", "type ShId { id: String a: Int }", "", false},
+	{"shared-id-field-different-type-only-id", "type ShIdOnly { id: ID! }", "type ShIdOnly { id: Int }", "", false},
+	{"shared-id-field-different-nullability", "type ShIdN { id: ID! a: Int }", "type ShIdN { id: ID a: Int }", "", false},
+	{"shared-id-field-different-arg-set", "type ShIdA { id: ID! a: Int }", "type ShIdA { id(x: Int): ID! a: Int }", "", false},
+	{"input-shared-id-field-different-type", "input ShIdIn { id: ID! a: Int }", "input ShIdIn { id: Int a: Int }", "", false},
+	{"shared-field-different-list-default", "type ShLd { a(x: [String!] = [\"name\"]): Int }", "type ShLd { a(x: [String!] = [\"createdAt\"]): Int }", "", false},
+	{"shared-input-field-different-list-default", "input ShLdIn { s: [String!] = [\"a\"] }", "input ShLdIn { s: [String!] = [\"b\"] }", "", false},
+	{"shared-input-field-different-object-default", "input PtD { x: Int }\ninput ShOdIn { p: PtD = {x: 1} }", "input PtD { x: Int }\ninput ShOdIn { p: PtD = {x: 2} }", "", false},
+	{"shared-field-different-object-default", "input PtE { x: Int }\ntype ShOd { a(p: PtE = {x: 1}): Int }", "input PtE { x: Int }\ntype ShOd { a(p: PtE = {x: 2}): Int }", "", false},
+	{Kind: "benign-identical-plain-type", A: "type Same { a: Int b: String }", B: "type Same { a: Int b: String }", Benign: true},
+	{Kind: "benign-disjoint-plain-type", A: "type Dj { a: Int }", B: "type Dj { b: String }", Benign: true},
+	{Kind: "benign-disjoint-identical-triple", A: "type Tri { x: Int }", B: "type Tri { y: Int }", C: "type Tri { x: Int }", Benign: true},
+	{Kind: "benign-identical-disjoint-triple-input", A: "input TriIn { x: Int }", B: "input TriIn { x: Int }", C: "input TriIn { y: Int }", Benign: true},
+	{Kind: "root-node-relay-vs-plain", A: "", B: "REPLACE-RELAY-NODE-BY-PLAIN-FIELD"},
+	{"shared-field-different-type", "type Sh { a: Int }", "type Sh { a: String }", "", false},
+	{"shared-field-different-nullability", "type Sh { a: Int }", "type Sh { a: Int! }", "", false},
+	{"shared-field-different-list", "type Sh { a: [Int] }", "type Sh { a: Int }", "", false},
+	{"shared-field-different-arg-type", "type Sh { a(x: Int): Int }", "type Sh { a(x: String): Int }", "", false},
+	{"shared-field-different-arg-set", "type Sh { a: Int }", "type Sh { a(x: Int): Int }", "", false},
+	{"shared-field-different-arg-default", "type Sh { a(x: Int = 1): Int }", "type Sh { a(x: Int = 2): Int }", "", false},
+	{"shared-input-field-different-type", "input ShIn { a: Int }", "input ShIn { a: String }", "", false},
+	{"union-different-members", "type Ua { a: Int }\ntype Ub { a: Int }\nunion Un = Ua | Ub", "type Ua { a: Int }\ntype Ub { a: Int }\nunion Un = Ua", "", false},
+	{"interface-field-different-type", "interface If { a: Int }\ntype IfM implements If { a: Int }", "interface If { a: String }\ntype IfM2 implements If { a: String }", "", false},
 }
 
 // pairs per base: all ordered pairs (a,b), a != b, k <= 4 -> <= 12 ; perms <= 24
@@ -126,9 +135,35 @@ func applyEdit(spec rig.UniverseSpec, e conflictEdit, a, b int) (rig.UniverseSpe
 		}
 		return sdl + "\n" + add + "\n"
 	}
-	out.Services[a].SDL = fix(out.Services[a].SDL, e.A)
-	out.Services[b].SDL = fix(out.Services[b].SDL, e.B)
-	for _, s := range []int{a, b} {
+	touched := []int{a, b}
+	if e.A != "" {
+		out.Services[a].SDL = fix(out.Services[a].SDL, e.A)
+	}
+	if e.B == "REPLACE-RELAY-NODE-BY-PLAIN-FIELD" {
+		// service a keeps the Relay entry point node(id: ID!): Node, service b declares a plain root field of that name
+		const relay = "  node(id: ID!): Node\n"
+		if !strings.Contains(out.Services[a].SDL, relay) || !strings.Contains(out.Services[b].SDL, relay) {
+			return out, false
+		}
+		out.Services[b].SDL = strings.Replace(out.Services[b].SDL, relay, "  node: String\n", 1)
+	} else {
+		out.Services[b].SDL = fix(out.Services[b].SDL, e.B)
+	}
+	if e.C != "" {
+		c := -1
+		for i := range out.Services {
+			if i != a && i != b {
+				c = i
+				break
+			}
+		}
+		if c < 0 {
+			return out, false
+		}
+		out.Services[c].SDL = fix(out.Services[c].SDL, e.C)
+		touched = append(touched, c)
+	}
+	for _, s := range touched {
 		if _, err := gqlparser.LoadSchema(&ast.Source{Name: "x", Input: out.Services[s].SDL}); err != nil {
 			return out, false
 		}
@@ -169,10 +204,14 @@ func (p c05) Gen(c *run.Ctx, idx int) (json.RawMessage, error) {
 		e := conflictEdits[ei]
 		spec, ok := applyEdit(cu.spec, e, pairs[pr][0], pairs[pr][1])
 		if !ok {
+			if e.C != "" || e.B == "REPLACE-RELAY-NODE-BY-PLAIN-FIELD" {
+				return nil, nil // not applicable to this base (fewer than 3 services / a service without node)
+			}
 			return nil, fmt.Errorf("conflict edit %s produced an invalid service SDL", e.Kind)
 		}
 		mc.U = spec
 		mc.Edit = e.Kind
+		mc.Benign = e.Benign
 		mc.EditAt = []int{pairs[pr][0], pairs[pr][1]}
 	}
 	return mustJSON(mc), nil
@@ -237,7 +276,7 @@ func (p c05) Exec(c *run.Ctx, idx int, raw json.RawMessage) []run.Result {
 	if mo.panic != nil {
 		return fail("merge-panic: "+errTemplate(fmt.Sprint(mo.panic)), fmt.Sprintf("%v\n%s", mo.panic, mo.stack))
 	}
-	if sp.Edit != "" {
+	if sp.Edit != "" && !sp.Benign {
 		res.Counters["conflict_sets"] = 1
 		if mo.err == nil {
 			// show which side was silently preferred
